@@ -159,11 +159,16 @@ def install():
         return r
 
     def cap_exit(self, et, ev, tb):
-        r = orig_exit(self, et, ev, tb)
-        if _from_run():
-            _emit('CapExit', px=_stack()[-1].get('px', -1), exc=et.__name__ if et else 'none', restored=sys.stdout is self.orig_stdout,
-                  base=bool(et is not None and not issubclass(et, Exception)))
-        return r
+        internal = False
+        try:
+            return orig_exit(self, et, ev, tb)
+        except BaseException:
+            internal = True                     # the capture's own bookkeeping raised (e.g. the doctest closed the stream)
+            raise
+        finally:
+            if _from_run():
+                _emit('CapExit', px=_stack()[-1].get('px', -1), exc=et.__name__ if et else 'none', restored=sys.stdout is self.orig_stdout,
+                      base=bool(et is not None and not issubclass(et, Exception)), internal=internal)
     util_stream.CaptureStdout.__enter__ = cap_enter
     util_stream.CaptureStdout.__exit__ = cap_exit
 
@@ -210,7 +215,178 @@ def install():
                   failed_px=(-2 if self.failed_part == '<IMPORT>' else (self._parts.index(self.failed_part) if self.failed_part in self._parts else -1)))
         return s
     DocTest._post_run = _post_run
+    _install_session(DocTest)
     _installed[0] = True
+
+
+# ---------------------------------------------------------------------------------------------------------------------
+# Session events (specs/SessionTrace.tla): one native-runner session = one call of runner.doctest_module.
+# Written to `<file>-sess.<pid>`; sessions nest (a doctest may itself call doctest_module), every event carries its session id.
+_sess_out = [None]
+_sess_seq = [0]
+_sess_ctr = [0]
+_last_main_session = [None]
+
+
+def _sessions():
+    if not hasattr(_state, 'sessions'):
+        _state.sessions = []
+    return _state.sessions
+
+
+def _semit(sess, ev, **fields):
+    if _sess_out[0] is None:
+        _sess_out[0] = open('%s-sess.%d' % (os.environ[GUARD], os.getpid()), 'a')
+    _sess_seq[0] += 1
+    rec = {'e': ev, 'sess': sess['id'], 'seq': _sess_seq[0]}
+    rec.update(fields)
+    _sess_out[0].write(json.dumps(rec) + '\n')
+    _sess_out[0].flush()
+
+
+def _idx(sess, example):
+    for i, e in enumerate(sess['collected']):
+        if e is example:
+            return i + 1
+    return 0                                   # not one of the collected doctests (zero-argument fallback)
+
+
+def _install_session(DocTest):
+    import xdoctest
+    from xdoctest import runner, core
+    from xdoctest import __main__ as xmain
+    for obj, name in [(runner, 'doctest_module'), (runner, '_run_examples'), (runner, '_convert_to_test_module'), (runner, '_parse_commandline'),
+                      (core, 'parse_doctestables'), (xmain, 'main'), (xdoctest, 'doctest_module')]:
+        if not hasattr(obj, name):
+            raise RuntimeError('probe: wrap target %r.%s does not exist' % (obj, name))
+
+    orig_dm = runner.doctest_module
+
+    def doctest_module(module_identifier=None, *a, **kw):
+        if module_identifier is None:
+            # the original looks at its caller's frame; keep that meaning although this wrapper sits in between
+            g = sys._getframe(1).f_globals
+            module_identifier = g['__file__'] if '__file__' in g else sys.modules[g['__name__']]
+        _sess_ctr[0] += 1
+        sess = {'id': 'S%d-%d' % (os.getpid(), _sess_ctr[0]), 'phase': 'enter', 'collected': [], 'cmd': None}
+        _sessions().append(sess)
+        _semit(sess, 'SessEnter')
+        kind, exc, action, nfailed = 'return', 'none', 'none', -1
+        try:
+            res = orig_dm(module_identifier, *a, **kw)
+            if isinstance(res, dict):
+                action = str(res.get('action', 'none'))
+                nfailed = int(res.get('n_failed', -1))
+            return res
+        except BaseException as ex:
+            kind, exc = 'raise', type(ex).__name__
+            raise
+        finally:
+            _semit(sess, 'SessExit', kind=kind, exc=exc, action=action, nfailed=nfailed)
+            _sessions().pop()
+            _last_main_session[0] = sess
+    runner.doctest_module = doctest_module
+    xdoctest.doctest_module = doctest_module
+
+    orig_pc = runner._parse_commandline
+
+    def _parse_commandline(*a, **kw):
+        res = orig_pc(*a, **kw)
+        ss = _sessions()
+        if ss and ss[-1]['phase'] == 'enter' and sys._getframe(1).f_code.co_name == 'doctest_module':
+            command = res[0]
+            ss[-1]['cmd'] = command
+            ss[-1]['phase'] = 'collect'
+            _semit(ss[-1], 'Command', cmd=('none' if command is None else command if command in ('all', 'list', 'dump') else 'named'))
+        return res
+    runner._parse_commandline = _parse_commandline
+
+    orig_pd = core.parse_doctestables
+
+    def parse_doctestables(*a, **kw):
+        ss = _sessions()
+        mine = bool(ss) and ss[-1]['phase'] == 'collect' and sys._getframe(1).f_code.co_name == 'doctest_module'
+        if not mine:
+            yield from orig_pd(*a, **kw)
+            return
+        sess = ss[-1]
+        sess['phase'] = 'collecting'
+        for example in orig_pd(*a, **kw):
+            sess['collected'].append(example)
+            cmd = sess['cmd']
+            _semit(sess, 'Collect', i=len(sess['collected']), disabled=bool(example.is_disabled()),
+                   named=bool(cmd is not None and cmd in example.valid_testnames))
+            yield example
+        sess['phase'] = 'collected'
+    core.parse_doctestables = parse_doctestables
+
+    orig_re = runner._run_examples
+
+    def _run_examples(enabled_examples, *a, **kw):
+        ss = _sessions()
+        mine = bool(ss) and ss[-1]['phase'] == 'collected' and sys._getframe(1).f_code.co_name == 'doctest_module'
+        if not mine:
+            return orig_re(enabled_examples, *a, **kw)
+        sess = ss[-1]
+        sess['phase'] = 'running'
+        _semit(sess, 'Gather', idxs=[_idx(sess, e) for e in enabled_examples])
+        res = None
+        try:
+            res = orig_re(enabled_examples, *a, **kw)
+            return res
+        finally:
+            sess['phase'] = 'ran'
+            if res is not None:
+                _semit(sess, 'Tally', nP=int(res['n_passed']), nF=int(res['n_failed']), nS=int(res['n_skipped']), nT=int(res['n_total']),
+                       failed=[_idx(sess, e) for e in res['failed']])
+    runner._run_examples = _run_examples
+
+    orig_cv = runner._convert_to_test_module
+
+    def _convert_to_test_module(enabled_examples, *a, **kw):
+        ss = _sessions()
+        if ss and ss[-1]['phase'] == 'collected' and sys._getframe(1).f_code.co_name == 'doctest_module':
+            ss[-1]['phase'] = 'ran'
+            _semit(ss[-1], 'Dump', idxs=[_idx(ss[-1], e) for e in enabled_examples])
+        return orig_cv(enabled_examples, *a, **kw)
+    runner._convert_to_test_module = _convert_to_test_module
+
+    # the per-doctest outcome as the runner sees it: DocTest.run called from the loop of _run_examples
+    inner_run = DocTest.run
+
+    def run(self, *a, **kw):
+        ss = _sessions()
+        f = sys._getframe(1)
+        mine = bool(ss) and ss[-1]['phase'] == 'running' and f.f_code.co_name == '_run_examples' and f.f_code.co_filename.endswith('runner.py')
+        if not mine:
+            return inner_run(self, *a, **kw)
+        sess = ss[-1]
+        outcome = 'none'
+        try:
+            summ = inner_run(self, *a, **kw)
+            outcome = 'skipped' if summ['skipped'] else 'passed' if summ['passed'] else 'failed'
+            if bool(summ['passed']) + bool(summ['failed']) + bool(summ['skipped']) != 1:
+                outcome = 'inconsistent'
+            return summ
+        except BaseException as ex:
+            outcome = 'raise:' + ('KeyboardInterrupt' if isinstance(ex, KeyboardInterrupt) else 'Exception' if isinstance(ex, Exception) else 'Base')
+            raise
+        finally:
+            sess['phase'] = 'running'
+            _semit(sess, 'Run', i=_idx(sess, self), outcome=outcome)
+    DocTest.run = run
+
+    orig_main = xmain.main
+
+    def main(*a, **kw):
+        _last_main_session[0] = None
+        depth = len(_sessions())
+        code = orig_main(*a, **kw)
+        sess = _last_main_session[0]
+        if sess is not None and len(_sessions()) == depth:
+            _semit(sess, 'MainExit', code=(int(code) if isinstance(code, (int, bool)) else -1))
+        return code
+    xmain.main = main
 
 
 def maybe_install():
